@@ -197,11 +197,17 @@ def input_fn(sl, val, x):
     raise NotImplementedError(f"ref: input layer {type(sl).__name__}")
 
 
-def input_abs_fn(sl, val, x):
-    """Magnitude bound of an input layer (same formula with absolute values)."""
+def input_abs_fn(sl, val, x, coef=False):
+    """Magnitude bound of an input layer (same formula with absolute values).
+
+    coef=True: a polynomial is bounded by sum |c_k| max(1, |x|)^k, i.e. never below the norm of its
+    coefficient vector (products of polynomials are computed by FFT convolution, whose rounding error in
+    EVERY coefficient is proportional to the norms of the operands' coefficient vectors)."""
     if isinstance(sl, L.PolynomialLayer):
         c = np.abs(param(sl.coeff, val))
         xx = np.abs(np.asarray(x))
+        if coef:
+            xx = np.maximum(xx, 1.0)
         return sum(c[None, :, k] * xx[:, None] ** k for k in range(c.shape[1]))
     return np.abs(input_fn(sl, val, x))
 
@@ -242,7 +248,7 @@ def evaluate(sc, val, X, *, mag=False, override=None, layer_out=None):
         elif isinstance(sl, L.EvidenceLayer):
             obs = param(sl.observation, val)
             xo = np.broadcast_to(np.asarray(obs)[:1], (B,))
-            y = (input_abs_fn if mag else input_fn)(sl.layer, val, xo)
+            y = input_abs_fn(sl.layer, val, xo, coef=mag == "coef") if mag else input_fn(sl.layer, val, xo)
         elif isinstance(sl, L.ConstantValueLayer):
             v = param(sl.value, val)
             v = np.exp(v) if sl.log_space else v
@@ -250,7 +256,7 @@ def evaluate(sc, val, X, *, mag=False, override=None, layer_out=None):
             y = np.broadcast_to(v[None, :], (B, v.shape[0]))
         elif isinstance(sl, L.InputLayer):
             x = X[:, _var(sl)]
-            y = (input_abs_fn if mag else input_fn)(sl, val, x)
+            y = input_abs_fn(sl, val, x, coef=mag == "coef") if mag else input_fn(sl, val, x)
         elif isinstance(sl, L.SumLayer):
             W = param(sl.weight, val)
             W = np.abs(W) if mag else W
